@@ -167,18 +167,28 @@ class Pools(object):
             p.shutdown(wait=False, cancel_futures=True)
 
 
-def minimise(spec, pools, bld, plan, check, budget_s=90):
+def _pred(check, flags=None):
+    flags = flags or {}
+
+    def p(v):
+        return v["check"] == check and all(v.get("flags", {}).get(k) == val for k, val in flags.items())
+
+    return p
+
+
+def minimise(spec, pools, bld, plan, check, budget_s=90, flags=None):
     """ddmin over plan['ops'] then spec-specific simplifications; keeps plans whose run still
     reports a violation with the same check name."""
     pool = pools.pool[bld]
     t_end = time.time() + budget_s
+    pred = _pred(check, flags)
 
     def fails(p):
         try:
             vs = pool.submit(_exec_single, (spec.id, p)).result(timeout=120)
         except Exception:
             return False
-        return any(v["check"] == check for v in vs)
+        return any(pred(v) for v in vs)
 
     def fails_many(cands):
         futs = [pool.submit(_exec_single, (spec.id, p)) for p in cands]
@@ -186,7 +196,7 @@ def minimise(spec, pools, bld, plan, check, budget_s=90):
         for f in futs:
             try:
                 vs = f.result(timeout=120)
-                res.append(any(v["check"] == check for v in vs))
+                res.append(any(pred(v) for v in vs))
             except Exception:
                 res.append(False)
         return res
@@ -351,7 +361,18 @@ def main_check(spec, tier, master):
     for f in known.get("findings", []):
         if f["property"] != spec.id:
             continue
-        print("KNOWN-FINDING: property=%s %s [%s; matched %d run(s) of this batch]" % (spec.id, f["what"], f["id"], knownhits.get(f["id"], 0)))
+        wit = "no witness file"
+        wp = os.path.join(ROOT, f.get("witness", ""))
+        if f.get("witness") and os.path.exists(wp):
+            doc = json.load(open(wp))
+            b = doc.get("build", "py")
+            b = b if b in pools.pool else builds[0]
+            try:
+                vs = pools.pool[b].submit(_exec_single, (spec.id, doc["plan"])).result(timeout=300)
+                wit = "witness %s %s" % (f["witness"], "still reproduces" if any(_pred(f["check"], f.get("flags"))(v) for v in vs) else "NO LONGER reproduces")
+            except Exception as e:  # noqa
+                wit = "witness could not be run: %r" % (e,)
+        print("KNOWN-FINDING: property=%s %s [%s; %s; matched %d run(s) of this batch]" % (spec.id, f["what"], f["id"], wit, knownhits.get(f["id"], 0)))
     pools.close()
     wall = time.time() - t0
     ev = {
@@ -389,3 +410,35 @@ def main_check(spec, tier, master):
             json.dump(ev, fh, indent=1, default=str)
     print("%s %s: %d runs (%s) in %.1fs, %d distinct non-trivial, %d violations, %d known-finding hits, %d blocked; rc=%d" % (spec.id, tier, agg["n"], dict(per_build), wall, len(agg["nontrivial"]), len(fresh), sum(knownhits.values()), sum(blocked.values()), rc))
     return rc
+
+
+def make_witness(spec, finding_id, master, tier="quick", max_runs=200000):
+    """search until a violation matches the listed finding, minimise it keeping check+flags, write known/<id>.json"""
+    known = load_known()
+    f = [x for x in known["findings"] if x["id"] == finding_id][0]
+    pools = Pools(("py",))
+    pred = _pred(f["check"], f.get("flags"))
+    found = None
+    chunk = 50
+    start = 0
+    while found is None and start < max_runs:
+        futs = [pools.pool["py"].submit(_work, (spec.id, tier, master, list(range(s, s + chunk)), time.time() + 600)) for s in range(start, start + chunk * NCPU, chunk)]
+        for fu in futs:
+            o = fu.result()
+            for v in o["viol"]:
+                if pred(v) and (found is None or v["run_index"] < found["run_index"]):
+                    found = v
+        start += chunk * NCPU
+    if found is None:
+        print("no run matches", finding_id)
+        return 2
+    mplan = minimise(spec, pools, "py", found["plan"], f["check"], flags=f.get("flags"), budget_s=120)
+    vs = pools.pool["py"].submit(_exec_single, (spec.id, mplan)).result()
+    hit = [v for v in vs if pred(v)][0]
+    os.makedirs(os.path.join(ROOT, "known"), exist_ok=True)
+    doc = {"property": spec.id, "finding": finding_id, "master_seed": master, "run_index": found["run_index"], "build": "py", "expected": {"check": hit["check"], "detail": hit["detail"], "flags": hit["flags"]}, "plan": mplan}
+    with open(os.path.join(ROOT, f["witness"]), "w") as fh:
+        json.dump(doc, fh, indent=1, default=str)
+    print("wrote", f["witness"], "::", hit["detail"][:300])
+    pools.close()
+    return 0
